@@ -476,7 +476,16 @@ pub fn run(rng: &mut Rng, out: &mut Out, tier: &str) {
             Dec { mant: if r.chance(1, 2) { -mant } else { mant }, scale }
         };
         let a = gen(&mut r);
-        let b = if r.chance(1, 6) { a } else { gen(&mut r) };
+        let b = if r.chance(1, 6) {
+            a
+        } else if r.chance(1, 3) && a.scale <= 2 {
+            // the other bound continues the digits of this one (0.5 and 0.57, 1 and 1.05, -2.7 and -2.75)
+            let e = r.range(1, 2) as u32;
+            let d = r.range(1, 10usize.pow(e) - 1) as i128;
+            Dec { mant: a.mant * 10i128.pow(e) + if a.mant < 0 { -d } else { d }, scale: a.scale + e }
+        } else {
+            gen(&mut r)
+        };
         let (lo, hi) = if a.cmp(&b) == std::cmp::Ordering::Greater && r.chance(9, 10) { (b, a) } else { (a, b) };
         let lo = if r.chance(1, 8) { None } else { Some((lo, r.chance(1, 2))) };
         let hi = if r.chance(1, 8) { None } else { Some((hi, r.chance(1, 2))) };
